@@ -22,6 +22,13 @@ def eval (t : List String) : Option Nat := do
     let w ← nat? t "w"; let x ← nat? t "x"
     if x < 2 ^ w then some (f (toBits w x)) else none
   match op with
+  | "len" => do   -- documented width of the returned Value: `op=len f=popcount w=5` → `r=3`
+    let w ← nat? t "w"; let f ← kv? t "f"
+    match f with
+    | "popcount" => some (bitsFor w)
+    | "ctz" | "clz" => some (ceilLog2 (w + 1))
+    | "extract" | "clear" | "mfrom" | "mafter" | "muntil" | "mbefore" => some w
+    | _ => none
   | "popcount" => bits1 popcount
   | "ctz" => bits1 ctz
   | "clz" => bits1 clz
